@@ -17,7 +17,12 @@ def main():
     if not ok:
         log("setup: constants translator failed")
         return 1
-    rc, out = vlib.coq_make([f[:-2] + ".vo" for f in vlib.coq_files()], timeout=3000)
+    # only what the registered properties need (other files may be work in progress)
+    targets = []
+    for pid in registry.PROPS:
+        prop = importlib.import_module("p_" + pid.lower()).PROP
+        targets.append(prop.prop_file[:-2] + ".vo")
+    rc, out = vlib.coq_make(sorted(set(targets)), timeout=3000)
     if rc != 0:
         log(out[-4000:])
         log("setup: Coq build failed")
